@@ -62,6 +62,8 @@ def build_driver(workdir, race=False):
     sh([go_bin(), 'mod', 'edit', '-replace', 'github.com/avos-io/goat=' + REPO], cwd=h, env=GOENV)
     out = os.path.join(workdir, 'driver.test')
     cmd = [go_bin(), 'test', '-c', '-tags', 'verif', '-o', out]
+    if os.environ.get('VERIF_COVER'):     # development aid: statement coverage of the library under the scenarios
+        cmd[3:3] = ['-cover', '-coverpkg', 'github.com/avos-io/goat/...']
     env = dict(GOENV)
     if race:
         cmd.insert(2, '-race')
@@ -124,8 +126,12 @@ def run_shard(driver, scens, workdir, name, watchdog_s=4):
     while frm < len(scens):
         env = dict(os.environ, VERIF_SCEN=scen_path, VERIF_OUT=trace_path, VERIF_FROM=str(frm),
                    VERIF_WATCHDOG_S=str(watchdog_s))
+        cov = []
+        if os.environ.get('VERIF_COVER'):
+            os.makedirs(os.environ['VERIF_COVER'], exist_ok=True)
+            cov = ['-test.coverprofile', os.path.join(os.environ['VERIF_COVER'], '%s_%d_%d.cov' % (name, os.getpid(), frm))]
         try:
-            p = subprocess.run([driver, '-test.run', '^TestDriver$', '-test.timeout', '0'], env=env,
+            p = subprocess.run([driver, '-test.run', '^TestDriver$', '-test.timeout', '0'] + cov, env=env,
                                capture_output=True, text=True, timeout=3600)
         except subprocess.TimeoutExpired:
             raise Inconclusive('worker timeout on shard ' + name)
